@@ -41,6 +41,8 @@ struct SessState {
     extra: Vec<Value>,
     closed_by_server: bool,
     welcome: Option<String>,
+    open_inv: u64,
+    open_ret: u64,
 }
 
 struct Shared {
@@ -258,6 +260,7 @@ async fn run_session(
 ) -> (String, Arc<Mutex<SessState>>, Option<tokio::net::unix::OwnedWriteHalf>, Arc<Notify>) {
     let st = Arc::new(Mutex::new(SessState::default()));
     let notify = Arc::new(Notify::new());
+    st.lock().await.open_inv = tick(&sh);
     let stream = match UnixStream::connect(&path).await {
         Ok(s) => s,
         Err(_) => return (name, st, None, notify),
@@ -273,7 +276,9 @@ async fn run_session(
         let mut names = sh.names.lock().await;
         names.bind(&name, &cid);
     }
+    st.lock().await.open_ret = tick(&sh);
     let mut open = true;
+    let mut last_cget_ver: u64 = 0;
     for item in items {
         let op = s(&item, "op");
         let mut rec = item.clone();
@@ -305,16 +310,33 @@ async fn run_session(
         let line = match op.as_str() {
             "raw" => Some(s(&item, "line")),
             "auth" => {
+                // claims in model form: {"read": [[seg..]..], "write": .., "delete": ..} | "bad" | "forged" | "expired"
+                let all = json!({"read": ["#"], "write": ["#"], "delete": ["#"]});
+                let full = |p: &Value, exp: u64| json!({"sub": "t", "name": "t", "exp": exp, "worterbuchPrivileges": p});
+                let kind = s(&item, "kind");
                 let tok = match (&secret, item.get("claims")) {
-                    (Some(sec), Some(c)) if c.is_object() => mint_token(sec, c),
-                    (_, Some(c)) if c.as_str() == Some("forged") => mint_token("not-the-secret", &json!({"sub": "x", "name": "x", "exp": 4102444800u64, "worterbuchPrivileges": {"read": ["#"], "write": ["#"], "delete": ["#"]}})),
+                    (Some(sec), Some(c)) if c.is_object() && kind == "ok" => {
+                        let mut names = sh.names.lock().await;
+                        let mut p = Map::new();
+                        for k in ["read", "write", "delete"] {
+                            let pats: Vec<Value> = c[k].as_array().cloned().unwrap_or_default().iter().map(|x| json!(names.key_in(x))).collect();
+                            p.insert(k.to_owned(), Value::Array(pats));
+                        }
+                        mint_token(sec, &full(&Value::Object(p), 4102444800))
+                    }
+                    (Some(sec), _) if kind == "expired" => mint_token(sec, &full(&all, 1000)),
+                    (_, _) if kind == "forged" => mint_token("not-the-secret", &full(&all, 4102444800)),
                     _ => "garbage.token.value".to_owned(),
                 };
                 serde_json::to_string(&CM::AuthorizationRequest(wc::AuthorizationRequest { auth_token: tok })).ok()
             }
             _ => {
+                if item.get("ver_from").is_some() {
+                    // compare-and-swap cycle: the version comes from this session's last cget answer
+                    rec["ver"] = json!(last_cget_ver);
+                }
                 let mut names = sh.names.lock().await;
-                build_msg(&mut names, &item)
+                build_msg(&mut names, &rec)
             }
         };
         let Some(line) = line else { continue };
@@ -336,6 +358,10 @@ async fn run_session(
         }
         if b(&item, "wait") {
             wait_until(&st, &notify, |g| g.log[idx]["rep"]["t"] != "none" || g.closed_by_server, 10000).await;
+            if op == "cget" {
+                let g = st.lock().await;
+                last_cget_ver = g.log[idx]["rep"]["n"].as_u64().unwrap_or(0);
+            }
         }
     }
     (name, st, if open { Some(wr) } else { None }, notify)
@@ -453,7 +479,7 @@ async fn run_scenario(sc: Value, sock: PathBuf, meaning: Map<String, Value>) -> 
     }
     // ... and every live subscription is flushed by a marker publish on a key it matches,
     // issued by the harness' own admin session and awaited on the subscription's stream
-    let admin = run_markers(&done, &sock, &sh).await;
+    let (admin, exact) = run_markers(&done, &sock, &sh, secret.is_some()).await;
     let mut sess_out = Map::new();
     let mut streams = Map::new();
     let mut lsstreams = Map::new();
@@ -464,7 +490,8 @@ async fn run_scenario(sc: Value, sock: PathBuf, meaning: Map<String, Value>) -> 
     }
     for (name, st, _wr, _n) in &all {
         let g = st.lock().await;
-        sess_out.insert(name.clone(), json!({"cid": name, "log": g.log, "closed": g.closed_by_server, "welcome": g.welcome.is_some()}));
+        sess_out.insert(name.clone(), json!({"cid": name, "log": g.log, "closed": g.closed_by_server, "welcome": g.welcome.is_some(),
+                                          "open_inv": g.open_inv, "open_ret": g.open_ret}));
         for (tid, evs) in &g.streams {
             streams.insert(format!("{name}:{tid}"), Value::Array(evs.clone()));
         }
@@ -477,7 +504,10 @@ async fn run_scenario(sc: Value, sock: PathBuf, meaning: Map<String, Value>) -> 
     }
     subsys.request_global_shutdown();
     let clean = tokio::time::timeout(Duration::from_secs(10), server).await.map(|r| r.unwrap_or(false)).unwrap_or(false);
-    json!({"sessions": sess_out, "streams": streams, "lsstreams": lsstreams, "extra": extra, "server_clean_exit": clean})
+    let res = json!({"sessions": sess_out, "streams": streams, "lsstreams": lsstreams, "extra": extra, "exact": exact,
+           "auth_required": secret.is_some(), "server_clean_exit": clean});
+    let names = sh.names.lock().await;
+    names.translate(&res)
 }
 
 /// the admin session: for every live subscription of an open session publish a marker on a
@@ -486,7 +516,8 @@ async fn run_markers(
     done: &[(String, Arc<Mutex<SessState>>, Option<tokio::net::unix::OwnedWriteHalf>, Arc<Notify>)],
     sock: &PathBuf,
     sh: &Arc<Shared>,
-) -> Option<(String, Arc<Mutex<SessState>>, Option<tokio::net::unix::OwnedWriteHalf>, Arc<Notify>)> {
+    secret_set: bool,
+) -> (Option<(String, Arc<Mutex<SessState>>, Option<tokio::net::unix::OwnedWriteHalf>, Arc<Notify>)>, Vec<String>) {
     // collect live subscriptions: acked sub/psub without a later acked unsub, session still open
     let mut targets: Vec<(usize, u64, Vec<String>)> = vec![];
     for (i, (_name, st, wr, _)) in done.iter().enumerate() {
@@ -517,8 +548,8 @@ async fn run_markers(
             targets.push((i, tid, pat));
         }
     }
-    if targets.is_empty() {
-        return None;
+    if targets.is_empty() || secret_set {
+        return (None, vec![]);
     }
     let mut items = vec![];
     let mut waits = vec![];
@@ -543,13 +574,14 @@ async fn run_markers(
         waits.push((*i, *tid, val));
     }
     if items.is_empty() {
-        return None;
+        return (None, vec![]);
     }
     let barriers = Arc::new(HashMap::new());
     let adm = run_session("adm".to_owned(), items, sock.clone(), sh.clone(), barriers, None).await;
+    let mut exact = vec![];
     for (i, tid, val) in waits {
-        let (_, st, _, notify) = &done[i];
-        wait_until(
+        let (name, st, _, notify) = &done[i];
+        let seen = wait_until(
             st,
             notify,
             |g| {
@@ -559,6 +591,10 @@ async fn run_markers(
             5000,
         )
         .await;
+        let g = st.lock().await;
+        if seen && !g.closed_by_server {
+            exact.push(format!("{name}:{tid}"));
+        }
     }
-    Some(adm)
+    (Some(adm), exact)
 }
